@@ -1,5 +1,6 @@
 import Pathrs.Replay
 import Pathrs.Discipline
+import Pathrs.Capi
 
 /-!
 # Model driver: reads harness transcripts on stdin, replays each case through
@@ -115,6 +116,8 @@ structure Case where
   snaps : List (List String) := []
   after : List (List String) := []
   handle : List String := []
+  tlines : List (List String) := []
+  buf : Option String := none
   bad : Option String := none
 deriving Inhabited
 
@@ -132,7 +135,7 @@ def kvVal (toks : List String) (key : String) : Option String :=
 
 /-- A value the model can return. -/
 inductive Val where
-  | fd (n : Fd) | bytes (b : Bytes) | unit
+  | fd (n : Fd) | bytes (b : Bytes) | unit | num (n : Nat) (buf : Option Bytes)
 deriving Repr, DecidableEq
 
 def errLine : Err → String
@@ -151,6 +154,7 @@ def resultLine : Except Err Val → String
   | .ok (.fd n) => s!"ok fd {n}"
   | .ok (.bytes b) => s!"ok bytes {hex b}"
   | .ok .unit => "ok unit"
+  | .ok (.num n _) => s!"ok num {n}"
   | .error e => errLine e
 
 /-- canonical form of the implementation's `res` line for comparison -/
@@ -159,7 +163,9 @@ def implResultLine (res : List String) : String :=
   | "ok" :: "fd" :: rest => s!"ok fd {(kvVal rest "fd").getD "?"}"
   | ["ok", "bytes", b] => s!"ok bytes {b}"
   | ["ok", "unit"] => "ok unit"
+  | ["ok", "num", n] => s!"ok num {n}"
   | ["err", k, e] => s!"err {k} {e}"
+  | "cerr" :: e :: _ => s!"cerr {e}"
   | "panic" :: _ => "panic"
   | _ => "?"
 
@@ -253,6 +259,49 @@ def modelOf (c : Case) : Except String (M Val) := do
     let d ← bytes d
     let fl ← nat fl
     pure (mapVal (fun _ => .unit) (Root.rename env root s d fl))
+  | "capi" :: fn :: kvs => do
+    let kv (k : String) : Option String := kvVal kvs k
+    let int (k : String) : Except String Int :=
+      match (kv k).bind String.toInt? with | some n => .ok n | none => .error s!"capi {k}"
+    let natk (k : String) : Except String Nat :=
+      match (kv k).bind String.toNat? with | some n => .ok n | none => .error s!"capi {k}"
+    let optBytes (k : String) : Except String (Option Bytes) :=
+      match kv k with
+      | some "null" => .ok none
+      | some s => match unhex s with | some b => .ok (some b) | none => .error s!"capi hex {k}"
+      | none => .error s!"capi {k}"
+    let fd ← int "fd"
+    let path ← optBytes "path"
+    let path2 ← optBytes "path2"
+    let flagsI ← int "flags"
+    let flags := (flagsI.toNat)
+    let mode ← natk "mode"
+    let dev ← natk "dev"
+    let base ← natk "base"
+    let bufsize : Option Nat := (kv "bufsize").bind String.toNat?
+    let buf0 : Option Bytes := bufsize.map fun n => List.replicate n 0xAA
+    let bs := bufsize.getD 64
+    let unit (p : M Unit) : M Val := mapVal (fun _ => .num 0 none) p
+    match fn with
+    | "open_root" => pure (mapVal .fd (Capi.openRoot path))
+    | "reopen" => pure (mapVal .fd (Capi.reopen env fd flags))
+    | "resolve" => pure (mapVal .fd (Capi.resolve env false fd path false))
+    | "resolve_nofollow" => pure (mapVal .fd (Capi.resolve env false fd path true))
+    | "open" => pure (mapVal .fd (Capi.openSubpath env false fd path flags))
+    | "readlink" => pure (mapVal (fun (n, b) => .num n b) (Capi.readlink env false fd path buf0 bs))
+    | "rename" => pure (unit (Capi.rename env false fd path path2 flags))
+    | "rmdir" => pure (unit (Capi.rmdir env false fd path))
+    | "unlink" => pure (unit (Capi.unlink env false fd path))
+    | "remove_all" => pure (unit (Capi.removeAll env false fd path))
+    | "creat" => pure (mapVal .fd (Capi.creat env false fd path flags mode))
+    | "mkdir" => pure (unit (Capi.mkdir env false fd path mode))
+    | "mkdir_all" => pure (mapVal .fd (Capi.mkdirAll env false fd path mode))
+    | "mknod" => pure (unit (Capi.mknod env false fd path mode dev))
+    | "symlink" => pure (unit (Capi.symlink env false fd path path2))
+    | "hardlink" => pure (unit (Capi.hardlink env false fd path path2))
+    | "proc_open" => pure (mapVal .fd (Capi.procOpen env base path flags))
+    | "proc_readlink" => pure (mapVal (fun (n, b) => .num n b) (Capi.procReadlink env base path buf0 bs))
+    | other => .error s!"unknown C function {other}"
   | ["reopen", _, fl, _] => do
     let fl ← nat fl
     match (kvVal c.handle "fd").bind String.toInt? with
@@ -280,10 +329,24 @@ def judge (c : Case) : String :=
           s!"case {c.id} MISMATCH step={steps} model=<returned {resultLine a}> impl={showCall (leftover.head!.1)}"
         else
           let want := implResultLine c.res
-          let got := resultLine a
+          let got := match a, c.res with
+            | .error e, "cerr" :: _ => if e.isFatal then resultLine a else s!"cerr {Capi.cErrno e}"
+            | _, _ => resultLine a
           let got' := if got.startsWith "panic" then "panic" else got
+          -- caller buffer: 8 canary bytes, the buffer, 8 canary bytes
+          let bufBad : Option String := match a, c.buf with
+            | .ok (.num _ (some mb)), some region =>
+              let want := hex (List.replicate 8 0xAA ++ mb ++ List.replicate 8 0xAA)
+              if want = region then none else some s!"model={want} impl={region}"
+            | .error _, some region =>
+              match unhex region with
+              | some r => if r.all (· == 0xAA) then none else some s!"buffer written on error: {region}"
+              | none => some "bad buffer dump"
+            | _, _ => none
           if got' ≠ want then
             s!"case {c.id} RESULT model={got} impl={want}"
+          else if bufBad.isSome then
+            s!"case {c.id} BUFFER {bufBad.getD ""}"
           else
             let rootfd := ((cfgVal c "rootfd").bind String.toInt?).getD (-1)
             let hfd := ((kvVal c.handle "fd").bind String.toInt?).toList
@@ -318,11 +381,13 @@ partial def readCases (h : IO.FS.Stream) (cur : Case) (inAfter : Bool) (pendingC
   | "res" :: rest => readCases h { cur with res := rest } inAfter pendingCall emit
   | "kern" :: rest => readCases h { cur with kern := rest } inAfter pendingCall emit
   | "fdt" :: rest => readCases h { cur with fdt := rest } inAfter pendingCall emit
+  | "t" :: rest => readCases h { cur with tlines := rest :: cur.tlines } inAfter pendingCall emit
+  | ["buf", b] => readCases h { cur with buf := some b } inAfter pendingCall emit
   | "snap" :: rest => readCases h { cur with snaps := cur.snaps ++ [rest] } inAfter pendingCall emit
   | ["after"] => readCases h cur true pendingCall emit
   | "a" :: rest => readCases h { cur with after := cur.after ++ [rest] } inAfter pendingCall emit
   | ["end"] => do
-    emit { cur with events := cur.events.reverse }
+    emit { cur with events := cur.events.reverse, tlines := cur.tlines.reverse }
     readCases h {} false none emit
   | _ => readCases h cur inAfter pendingCall emit
 
@@ -334,8 +399,40 @@ def judgeDisc (c : Case) : String :=
     s!"disc {c.id} ok calls={c.events.length} follow_opens={follows.length}"
   | some (cl, _) => s!"disc {c.id} BAD {showCall cl}"
 
+/-- replay a sequential history of the C error table through the model -/
+def judgeErrTable (c : Case) : String :=
+  let rec go : List (List String) → Capi.Table → Nat → String
+    | [], _, n => s!"case {c.id} ok steps={n} res=errtable"
+    | l :: rest, t, n =>
+      match l with
+      | ["store", _, want, id] =>
+        match want.toNat?, id.toInt? with
+        | some w, some i =>
+          match Capi.store t w [i] with
+          | some (_, t') => go rest t' (n + 1)
+          | none => s!"case {c.id} RESULT step={n} store returned id {i} which is out of range or already live"
+        | _, _ => s!"case {c.id} PARSE {l}"
+      | "take" :: id :: out =>
+        match id.toInt? with
+        | some i =>
+          let (r, t') := Capi.take t i
+          match r, out with
+          | none, ["none"] => go rest t' (n + 1)
+          | some e, ["some", e', desc] =>
+            if e'.toNat? = some e ∧ desc ≠ "0" then go rest t' (n + 1)
+            else s!"case {c.id} RESULT step={n} take {i}: model errno {e}, impl {e'} desc_len {desc}"
+          | none, _ => s!"case {c.id} RESULT step={n} take {i}: model none, impl {out}"
+          | some e, _ => s!"case {c.id} RESULT step={n} take {i}: model some {e}, impl {out}"
+        | none => s!"case {c.id} PARSE {l}"
+      | _ => s!"case {c.id} PARSE {l}"
+  go c.tlines [] 0
+
 def main : IO Unit := do
   let stdin ← IO.getStdin
   readCases stdin {} false none fun c => do
-    IO.println (judge c)
-    IO.println (judgeDisc c)
+    match c.op with
+    | ["errtable"] => IO.println (judgeErrTable c)
+    | ["errtable_threads"] => IO.println s!"case {c.id} ok steps=0 res=checked-by-history-oracle"
+    | _ =>
+      IO.println (judge c)
+      IO.println (judgeDisc c)
